@@ -36,6 +36,12 @@ CONSTANTS Clients,          \* connection slots (the daemon's socket descriptors
           FixRegrant        \* no new grant while a reclaim is unconfirmed
 
 None == 0                   \* "no client" (0 is never a connection)
+\* definitions a configuration may override (CONSTANT X <- Y): the flag values a CONNECT_REQ may carry, and
+\* the design variant described at SendReclaim
+NsiValues == BOOLEAN
+OnlyOff == {FALSE}
+NsiSkipsReclaim == FALSE
+On == TRUE
 BG == 1                     \* VBI_CHN_PRIO_BACKGROUND
 IA == 2                     \* VBI_CHN_PRIO_INTERACTIVE = DEFAULT_CHN_PRIO of a new connection
 TokStates == {"NONE", "RECLAIM", "RELEASE", "GRANT", "GRANTED", "RETURNED"}
@@ -48,10 +54,11 @@ VARIABLES order,    \* proxy.p_clnts: sequence of connections, oldest first
           valid,    \* chn_profile.is_valid
           tok,      \* chn_state.token_state
           svc,      \* all_services != 0
+          nsi,      \* client_flags & VBI_PROXY_CLIENT_NO_STATUS_IND (from the CONNECT_REQ; FALSE before it)
           holders,  \* ghost, see above
           up        \* FALSE once an assertion of the daemon has failed
 
-vars == <<order, cst, prio, valid, tok, svc, holders, up>>
+vars == <<order, cst, prio, valid, tok, svc, nsi, holders, up>>
 
 Range(s) == {s[i] : i \in 1..Len(s)}
 Listed == Range(order)
@@ -65,12 +72,13 @@ TypeOK == /\ order \in Seq(Clients) /\ Len(order) = Cardinality(Listed)
           /\ \A c \in Clients : (c \in Listed) <=> (cst[c] # "none")
           /\ prio \in [Clients -> 1..3] /\ valid \in [Clients -> BOOLEAN]
           /\ tok \in [Clients -> TokStates] /\ svc \in [Clients -> BOOLEAN]
+          /\ nsi \in [Clients -> BOOLEAN] /\ \A c \in Clients : nsi[c] => cst[c] = "fwd"
           /\ holders \subseteq Clients /\ up \in BOOLEAN
 
 Init == /\ order = <<>> /\ cst = [c \in Clients |-> "none"]
         /\ prio = [c \in Clients |-> IA] /\ valid = [c \in Clients |-> FALSE]
         /\ tok = [c \in Clients |-> "NONE"] /\ svc = [c \in Clients |-> FALSE]
-        /\ holders = {} /\ up = TRUE
+        /\ nsi = [c \in Clients |-> FALSE] /\ holders = {} /\ up = TRUE
 
 ---------------------------------------------------------------------------
 (* the code's helpers as operators on a token function t (L = listed connections) *)
@@ -127,17 +135,19 @@ Accept(c) == /\ up /\ cst[c] = "none"
              /\ order' = Append(order, c) /\ cst' = [cst EXCEPT ![c] = "wait"]
              /\ prio' = [prio EXCEPT ![c] = IA] /\ valid' = [valid EXCEPT ![c] = FALSE]
              /\ tok' = [tok EXCEPT ![c] = "NONE"] /\ svc' = [svc EXCEPT ![c] = FALSE]
+             /\ nsi' = [nsi EXCEPT ![c] = FALSE]
              /\ UNCHANGED <<holders, up>>
 
-\* CONNECT_REQ accepted (s: some service was granted).  No channel update.
-Connect(c, s) == /\ up /\ cst[c] = "wait"
+\* CONNECT_REQ accepted (s: some service was granted; f: client_flags has NO_STATUS_IND).  No channel update.
+Connect(c, s, f) == /\ up /\ cst[c] = "wait" /\ f \in NsiValues
                  /\ cst' = [cst EXCEPT ![c] = "fwd"] /\ svc' = [svc EXCEPT ![c] = s]
+                 /\ nsi' = [nsi EXCEPT ![c] = f]
                  /\ UNCHANGED <<order, prio, valid, tok, holders, up>>
 
 \* SERVICE_REQ
 ServiceReq(c, s) == /\ up /\ cst[c] = "fwd"
                     /\ svc' = [svc EXCEPT ![c] = s]
-                    /\ UNCHANGED <<order, cst, prio, valid, tok, holders, up>>
+                    /\ UNCHANGED <<order, cst, prio, valid, tok, nsi, holders, up>>
 
 \* connection closed (any reason) and removed from the list in the same pass of the main loop:
 \* services updated, then channel_update(NULL) only if the device is (still) open
@@ -148,7 +158,7 @@ Gone(c) ==
          t0   == [tok EXCEPT ![c] = "NONE"]
          open == DevOpenFor(Range(ord2), svc2)
      IN /\ order' = ord2 /\ svc' = svc2
-        /\ cst' = [cst EXCEPT ![c] = "none"]
+        /\ cst' = [cst EXCEPT ![c] = "none"] /\ nsi' = [nsi EXCEPT ![c] = FALSE]
         /\ prio' = [prio EXCEPT ![c] = IA] /\ valid' = [valid EXCEPT ![c] = FALSE]
         /\ holders' = holders \ {c}
         /\ IF open
@@ -170,7 +180,7 @@ TokenReq(c, p, v) ==
         /\ tok' = IF r.t[c] = "GRANT" THEN [r.t EXCEPT ![c] = "GRANTED"] ELSE r.t
         /\ holders' = IF r.t[c] = "GRANT" THEN holders \cup {c} ELSE holders \ {c}
         /\ up' = ~r.crash
-  /\ UNCHANGED <<order, cst, svc>>
+  /\ UNCHANGED <<order, cst, svc, nsi>>
 
 \* CHN_NOTIFY_REQ with flag set F
 TokenAccepted(c) == FixTokenOwner => tok[c] # "NONE"     \* who may return the token
@@ -189,7 +199,7 @@ Notify(c, F) ==
                    LET r == Update(t1, order, prio, valid', c, forced, ps, DevOpen) IN
                    tok' = r.t /\ up' = ~r.crash
            ELSE tok' = t1 /\ up' = up
-  /\ UNCHANGED <<order, cst, prio, svc>>
+  /\ UNCHANGED <<order, cst, prio, svc, nsi>>
 
 \* CHN_RECLAIM_CNF: taken in every connection state, effective only while a reclaim is outstanding
 ReclaimCnf(c) ==
@@ -200,15 +210,24 @@ ReclaimCnf(c) ==
                 LET r == Update([tok EXCEPT ![c] = "NONE"], order, prio, valid, None, FALSE, ps, DevOpen) IN
                 tok' = r.t /\ up' = ~r.crash
      ELSE UNCHANGED <<tok, holders, up>>
-  /\ UNCHANGED <<order, cst, prio, valid, svc>>
+  /\ UNCHANGED <<order, cst, prio, valid, svc, nsi>>
 
 \* daemon steps: indications sent when the connection is idle
+\* CHN_RECLAIM_REQ is a request that needs the client's confirmation, not a status indication: it is sent to
+\* every client, whatever its flags (NO_STATUS_IND suppresses only CHN_CHANGE_IND, see ChangeIndTo).  The design
+\* variant NsiSkipsReclaim ("a NO_STATUS_IND client gets no reclaim: the token is taken back without a
+\* handshake and the channel is scheduled again") is kept to show what the flag must NOT do (MC_ProxyToken_nsiskip:
+\* OneHolder / GrantOnlyWhenFree violated).
 SendReclaim(c) == /\ up /\ cst[c] # "none" /\ tok[c] = "RECLAIM"
-                  /\ tok' = [tok EXCEPT ![c] = "RELEASE"]
-                  /\ UNCHANGED <<order, cst, prio, valid, svc, holders, up>>
+                  /\ IF NsiSkipsReclaim /\ nsi[c]
+                     THEN \E ps \in SchedChoices(Listed, prio, valid) :
+                             LET r == Update([tok EXCEPT ![c] = "NONE"], order, prio, valid, None, FALSE, ps, DevOpen) IN
+                             tok' = r.t /\ up' = ~r.crash
+                     ELSE tok' = [tok EXCEPT ![c] = "RELEASE"] /\ up' = up
+                  /\ UNCHANGED <<order, cst, prio, valid, svc, nsi, holders>>
 SendGrant(c) == /\ up /\ cst[c] # "none" /\ tok[c] = "GRANT"
                 /\ tok' = [tok EXCEPT ![c] = "GRANTED"] /\ holders' = holders \cup {c}
-                /\ UNCHANGED <<order, cst, prio, valid, svc, up>>
+                /\ UNCHANGED <<order, cst, prio, valid, svc, nsi, up>>
 
 \* vbi_proxyd_channel_timer(): a reservation expired (time is abstracted)
 Timer == /\ up /\ Cardinality(Listed) > 1 /\ DevOpen
@@ -216,10 +235,10 @@ Timer == /\ up /\ Cardinality(Listed) > 1 /\ DevOpen
          /\ \E ps \in SchedChoices(Listed, prio, valid) :
                LET r == Update(tok, order, prio, valid, None, FALSE, ps, DevOpen) IN
                tok' = r.t /\ up' = ~r.crash
-         /\ UNCHANGED <<order, cst, prio, valid, svc, holders>>
+         /\ UNCHANGED <<order, cst, prio, valid, svc, nsi, holders>>
 
 Next == \/ \E c \in Clients : \/ Accept(c) \/ Gone(c) \/ ReclaimCnf(c) \/ SendReclaim(c) \/ SendGrant(c)
-                              \/ \E s \in BOOLEAN : Connect(c, s) \/ ServiceReq(c, s)
+                              \/ \E s \in BOOLEAN : ServiceReq(c, s) \/ \E f \in BOOLEAN : Connect(c, s, f)
                               \/ \E p \in Prios, v \in BOOLEAN : TokenReq(c, p, v)
                               \/ \E F \in SUBSET Flags : Notify(c, F)
         \/ Timer
@@ -244,6 +263,13 @@ GrantOnlyWhenFree  == [][\A c \in Clients : (c \in holders' /\ c \notin holders)
 GrantOnlyOnRequest == [][\A c \in Clients : (c \in holders' /\ c \notin holders) => valid'[c] /\ prio'[c] = BG]_vars
 \* a grant in a TOKEN_CNF re-adds the requester: covered by OneHolder in the next state
 GrantedAsked == \A c \in Clients : tok[c] \in {"GRANT"} => valid[c] /\ prio[c] = BG
+
+\* CHN_CHANGE_IND (norm change, flush) is the status indication: vbi_proxyd_channel_flush / update_scanning mark
+\* only clients without NO_STATUS_IND.  Not part of the property (C19 says nothing about status indications): Trace_ProxyConn
+\* accepts a `chg` line for any open connection; c19.py counts the ones that do not satisfy ChangeIndTo as an observation.
+ChangeIndTo(c) == cst[c] # "none" /\ ~nsi[c]
+\* the population is mixed (reachability companion: must be violated)
+NeverMixedReclaim == ~\E c, d \in Clients : nsi[c] /\ ~nsi[d] /\ tok[c] = "RELEASE" /\ cst[d] = "fwd" /\ valid[d]
 
 \* reachability companions (must be violated: the antecedents above are not vacuous)
 NeverGranted == holders = {}
